@@ -189,6 +189,8 @@ BASES = [0x10, 0x0, 0x3, 0xff8, 0xffffffffffffffe8, 0xfffffffffffffff8, 0x7fffff
 
 
 def mem_program(rng):
+    if rng.random() < 0.4:
+        return mem_program_stationary(rng)
     bases = rng.sample(BASES, 4)
     st = ["register pP { pc : 64 = 0; }", "p_pc = P_pc + 10;", "pc = P_pc;", stat_stmt(rng, "(i10bytes)[11..15]"),
           "wire base : 64;",
@@ -197,6 +199,28 @@ def mem_program(rng):
           "mem_readbit = (i10bytes)[6..7] | (i10bytes)[9..10];",
           "mem_writebit = (i10bytes)[7..8] | (i10bytes)[10..11];",
           "mem_input = (i10bytes)[16..80];",
+          "wire seen : 64; seen = mem_output;"]
+    rng.shuffle(st)
+    return "\n".join(st) + "\n"
+
+
+def mem_program_stationary(rng):
+    """The same addresses are read again and again (a pc that stays put or creeps, a data address
+    from a tiny set) while stores land at, inside, just below and just above them; control bits
+    come from a linear congruential register, not from the fetched bytes."""
+    start = rng.choice([0, 8, 16, 21, 100, (1 << 64) - 6])
+    stride = rng.choice([0, 0, 0, 1, 2])
+    seedv = rng.getrandbits(64)
+    off = rng.choice(["((C_n >> 20) & 0xf)", "((C_n >> 20) & 7)", "((C_n >> 20) & 3)"])
+    target = rng.choice(["P_pc", "P_pc", "0x%x" % rng.choice(BASES)])
+    st = ["register pP { pc : 64 = %d; }" % start, "p_pc = P_pc + %d;" % stride, "pc = P_pc;",
+          "register cC { n : 64 = %d; }" % seedv, "c_n = (C_n * 6364136223846793005) + 1442695040888963407;",
+          "Stat = STAT_AOK;",
+          "wire delta : 64;", "delta = %s;" % off,
+          "mem_addr = [ (C_n)[30..31] == 1 : (%s + delta); 1 : (%s - delta) ];" % (target, target),
+          "mem_readbit = %s;" % rng.choice(["0", "0", "(C_n)[40..41]", "(C_n)[40..41] & (C_n)[41..42]"]),
+          "mem_writebit = %s;" % rng.choice(["(C_n)[50..51]", "(C_n)[50..51] & (C_n)[51..52]", "(C_n)[50..51] | (C_n)[51..52]"]),
+          "mem_input = C_n;",
           "wire seen : 64; seen = mem_output;"]
     rng.shuffle(st)
     return "\n".join(st) + "\n"
